@@ -2,7 +2,7 @@
    read ([At]), what the panicking slices return there, and that the comment helpers add nothing when
    the slice holds no comment. *)
 From Coq Require Import String Lia PeanoNat.
-From Spl Require Import Model.Format Model.Lexer Spec.Grammar Proofs.FormatProofs Proofs.FormatStructText.
+From Spl Require Import Model.Format Model.Lexer Spec.Grammar Proofs.RenderProofs Proofs.FormatProofs Proofs.FormatStructText.
 Import ListNotations.
 Local Open Scope nat_scope.
 
@@ -97,6 +97,65 @@ Proof.
   cbn [leading_comment_text]. rewrite (nice_not_comment_tok t Ht). reflexivity.
 Qed.
 
+(* ---- leading comments: the slice starts with the comments of the slot c ---- *)
+(* what the helpers print for the comments of a slot: one line each, "// " + trimmed text *)
+Definition lead_text (c : cs) : text := flat_map (fun s => sh (Comment s)) c.
+
+Lemma lead_all sl c ks body :
+  map tk sl = cm c ++ ks -> forallb nice ks = true -> add_all_comments body sl = lead_text c ++ body.
+Proof.
+  revert sl. induction c as [|s c IH]; intros sl M Hn.
+  - cbn [cm map app] in M. cbn [lead_text flat_map app]. apply no_all_comments. rewrite M. exact Hn.
+  - destruct sl as [|t sl]; [discriminate M|]. cbn [cm map app] in M. injection M as Mt M.
+    unfold add_all_comments, all_comment_text. cbn [filter]. unfold is_comment_tok at 1. rewrite Mt.
+    cbn [flat_map]. unfold show_tok at 1. rewrite Mt. cbn [lead_text flat_map]. rewrite <- !app_assoc. f_equal.
+    apply (IH sl M Hn).
+Qed.
+
+Lemma lead_leading sl c k ks body :
+  map tk sl = cm c ++ k :: ks -> is_comment k = false -> add_leading_comments body sl = lead_text c ++ body.
+Proof.
+  revert sl. induction c as [|s c IH]; intros sl M Hk.
+  - cbn [cm map app] in M. destruct sl as [|t sl]; [discriminate M|]. cbn [map] in M. injection M as Mt _.
+    unfold add_leading_comments. cbn [leading_comment_text]. unfold is_comment_tok. rewrite Mt.
+    destruct k; try reflexivity. discriminate Hk.
+  - destruct sl as [|t sl]; [discriminate M|]. cbn [cm map app] in M. injection M as Mt M.
+    unfold add_leading_comments. cbn [leading_comment_text]. unfold is_comment_tok at 1. rewrite Mt.
+    unfold show_tok at 1. rewrite Mt. cbn [lead_text flat_map]. rewrite <- !app_assoc. f_equal.
+    apply (IH sl M Hk).
+Qed.
+
+(* comment lines in front of a woven text *)
+Lemma Wv_lead c ks t : forallb valid_kind (cm c) = true -> Wv ks t -> Wv (cm c ++ ks) (lead_text c ++ t).
+Proof.
+  induction c as [|s c IH]; intros Hv W; [exact W|].
+  cbn [cm map forallb] in Hv. apply andb_true_iff in Hv. destruct Hv as [Hs Hv].
+  cbn [cm map app lead_text flat_map]. rewrite sh_comment, <- !app_assoc.
+  apply (Wv_comment s (cm c ++ ks) [] (lead_text c ++ t) Hs (IH Hv W) eq_refl).
+Qed.
+
+Lemma cm_length c : length (cm c) = length c.
+Proof. apply map_length. Qed.
+
+Lemma valid_app a b : forallb valid_kind (a ++ b) = true -> forallb valid_kind a = true /\ forallb valid_kind b = true.
+Proof. rewrite forallb_app. intros H. apply andb_true_iff in H. exact H. Qed.
+
+Lemma valid_cons k r : forallb valid_kind (k :: r) = true -> valid_kind k = true /\ forallb valid_kind r = true.
+Proof. cbn [forallb]. intros H. apply andb_true_iff in H. exact H. Qed.
+
+Lemma nice_all_valid ks : forallb nice ks = true -> forallb valid_kind ks = true.
+Proof. intros H. apply forallb_nice_split in H. tauto. Qed.
+
+(* split [forallb valid_kind (piece) = true] at the top-level appends and conses *)
+Ltac valid_split :=
+  repeat match goal with
+         | H : forallb valid_kind (_ :: _) = true |- _ =>
+             apply valid_cons in H; let V := fresh "V" in destruct H as [V H]
+         | H : forallb valid_kind (_ ++ _) = true |- _ =>
+             apply valid_app in H; let V := fresh "V" in destruct H as [V H]
+         | H : forallb valid_kind [] = true |- _ => clear H
+         end.
+
 (* ---- comment slots of a comment-free piece are empty ---- *)
 Lemma nice_cm c r : forallb nice (cm c ++ r) = true -> c = [] /\ forallb nice r = true.
 Proof.
@@ -138,6 +197,6 @@ Ltac at_split :=
              end
          end.
 
-Ltac len_lia := cbn [length cm map app]; rewrite ?app_length; cbn [length]; lia.
+Ltac len_lia := cbn [length app]; rewrite ?app_length, ?cm_length; cbn [length]; rewrite ?app_length, ?cm_length; cbn [length]; lia.
 
 Ltac at_solve := eapply At_eq; [eassumption | len_lia].
